@@ -101,6 +101,14 @@ pub fn c16(tier: &str, seed: u64) -> Vec<Case> {
         set.insert(r.clone());
         if !set.contains(&owned) { c = c.fail("hashset-lookup", "the owned copy is not found in a set holding the original".into()); }
         v.push(c);
+        // the same entries in another order: whatever equality says, hashing must agree with it
+        let mut other = r.clone();
+        match &mut other.rdata { RData::NSEC(n) => n.type_bit_maps.reverse(), RData::OPT(o) => o.opt_codes.reverse(), _ => {} }
+        let (eq, heq) = (r == other, h(&r) == h(&other));
+        let mut c = Case::new(format!("hash.rr {} {}", text::rr(&r), text::rr(&other)), format!("{} {}", eq as u8, heq as u8)).tag("hash.rr").tag("unnormalised-value");
+        if eq && !heq { c = c.fail("eq-hash", "records whose entries are the same in another order compare equal but hash differently".into()); }
+        if eq != set.contains(&other) { c = c.fail("hashset-lookup", "set membership disagrees with equality".into()); }
+        v.push(c);
     }
     for (x, y) in [("Example.com", "example.com"), ("a.B.c", "a.b.c"), ("LOCAL", "local"), ("x.y", "x.y")] {
         let (na, nb) = (Name::new_unchecked(x).into_owned(), Name::new_unchecked(y).into_owned());
@@ -227,6 +235,24 @@ pub fn c12(tier: &str, seed: u64) -> Vec<Case> {
         let mut p = Packet::new_reply(3);
         p.answers.push(ResourceRecord::new(Name::new_unchecked("t"), CLASS::IN, 0, RData::TXT(t)));
         if let Ok(b) = p.build_bytes_vec() { inputs.push((b, "tiny-txt".to_string())); }
+    }
+    // labels that look like several labels once rendered (dots, escapes inside a label), against names
+    // whose labels are those pieces: the relations between names are evaluated on every pair
+    {
+        let labels: [&[u8]; 9] = [b"a.b.c", b"b", b"c", b"a", b"b.c", b"office._tcp.local", b"_tcp", b"local", b"x.y\\z"];
+        let mut names: Vec<Vec<Vec<u8>>> = vec![vec![]];
+        for l in labels { names.push(vec![l.to_vec()]); }
+        for l in labels { for m in labels { names.push(vec![l.to_vec(), m.to_vec()]); } }
+        names.push(vec![b"a".to_vec(), b"b".to_vec(), b"c".to_vec()]);
+        names.push(vec![b"office".to_vec(), b"_tcp".to_vec(), b"local".to_vec()]);
+        for n in names.iter() {
+            for m in names.iter() {
+                let mut p = Packet::new_reply(5);
+                p.questions.push(Question::new(mk_name(m), TYPE::A.into(), CLASS::IN.into(), false));
+                p.answers.push(ResourceRecord::new(mk_name(n), CLASS::IN, 1, RData::A(rdata::A { address: 1 })));
+                if let Ok(b) = p.build_bytes_vec() { inputs.push((b, "dotted-labels".to_string())); }
+            }
+        }
     }
     for (b, tag) in inputs {
         let parsed = std::panic::catch_unwind(|| Packet::parse(&b).ok()).unwrap_or(None);
